@@ -368,6 +368,12 @@ def run(ctx: Context, rep) -> None:
            if users else f"{n_sites} reference(s), all in the native "
            "interface", message="the native reader's failure semantics must "
            "not leak into the other interfaces")
+    # a shard whose arrays have unequal lengths is damaged: the npz reader
+    # indexes every array with the common length (no zip truncation), so the
+    # damage raises instead of shortening the pass (same rule as
+    # C01.npz-reader)
+    from sa.rules.c01 import check_npz_reader
+    check_npz_reader(ctx, rep, "C07.npz-length")
 
 
 
